@@ -176,4 +176,27 @@ TEXTS = {
   "note": "Not decided: exactness of the dependency set for arbitrary import graphs, local-over-remote precedence values, and that ls-files lists exactly the files build puts in the image.",
   "technique": "CFG push/pop pairing + constant-argument and check-then-insert shape rules + static call-chain + SSA error-use",
  },
+ "C14": {
+  "text": "Decides narrow structural necessary conditions of the bucket model, not the model equivalence itself: lockset — every access to the memory bucket's object map holds its "
+          "RWMutex (writes exclusively) and the map is written only by the WriteObjectCloser's Close (objects become visible on Close) and by Delete/DeleteAll; prefix tests are "
+          "path-wise — inside the storage packages no strings.HasPrefix/HasSuffix/Contains is applied to a path/prefix parameter or a value derived from it (two reviewed diff-label "
+          "exceptions), and every Walk/DeleteAll prefix filter goes through normalpath.EqualsOrContainsPath; sibling agreement on not-exist — every *fs.PathError built for a missing "
+          "object in the storage packages carries fs.ErrNotExist; the union bucket builds ErrExistsMultipleLocations in both Walk and lookup unless overlay, and the overlay picks the "
+          "first delegate in index order; the prefix mapper pair MapPath/UnmapFullPath use the same prefix under an EqualsOrContainsPath guard and the chain mapper applies its list in "
+          "opposite orders for the two directions; the memory bucket's Walk visits sorted paths.",
+  "note": "Not decided: equivalence to the abstract map model after arbitrary operation histories, agreement of the os/mem/archive backends on the same history, copy/diff results; those "
+          "quantify over histories and contents and need execution.",
+  "technique": "lockset analysis on go/cfg + who-may-write + AST/type-resolved forbidden-call rule on derived path values + sibling agreement of error constructions",
+ },
+ "C17": {
+  "text": "Decides structural necessary conditions of exactly-once generation and output confinement: in isFileToGenerate every `return true` is preceded on its path by the store of the "
+          "path into alreadyUsedPaths (or the nil-map edge), imports found in either set return false, both lookups precede the store; ImagesToCodeGeneratorRequests fills the "
+          "non-import set for all images before the first request is built; ImageByDir sorts its directories and requests are built in slice order and stored by index; the "
+          "source-retention strip is applied only to the descriptor placed in ProtoFile[i], on the isFileToGenerate-true edge, while the unstripped one is appended to "
+          "SourceFileDescriptors; plugin-chosen names reach only storage.PutPath / ReadBucket.Get / the duplicate key / error text, and an insertion point without a read bucket is an "
+          "error; ValidatePluginResponses errors on a seen key Join(PluginOut, name) and bufgen calls it before any response is written; results of the parallel plugin jobs are "
+          "stored by index.",
+  "note": "Not decided: exactly-once over arbitrary directory/import shapes (value-level), dependency order inside requests (inherits C01), what a plugin does.",
+  "technique": "CFG must-precede / edge-dominance shape rules + SSA value identity for the two descriptor views + interprocedural SSA taint on plugin-chosen names",
+ },
 }
